@@ -62,7 +62,12 @@ func (a *ArgMax) Init(n *onnx.NodeProto) error {
 
 // Apply applies the argmax operator.
 func (a *ArgMax) Apply(inputs []tensor.Tensor) ([]tensor.Tensor, error) {
-	axis := ops.ConvertNegativeAxis(a.axis, len(inputs[0].Shape()))
+	nDims := len(inputs[0].Shape())
+	if a.axis < -nDims || a.axis >= nDims {
+		return nil, ops.ErrAxisOutOfRange(-nDims, nDims, a.axis)
+	}
+
+	axis := ops.ConvertNegativeAxis(a.axis, nDims)
 
 	reduced, err := tensor.Argmax(inputs[0], axis)
 	if err != nil {
